@@ -626,6 +626,25 @@ def op_read(base, op):
     return res
 
 
+def op_walk2(base, op):
+    """several passes over ONE Context of the shared parser: list(p.walk()), then list(p) (= p.parse(), the
+    localizable entries), then list(p.walk()) again — every pass must see what the first one saw (junk keys modulo
+    the counter); `stale` = the first pass that does not"""
+    fmt = op["fmt"]
+    p = P.getParser(op.get("name") or FNAME[fmt])
+    p.readUnicode(op["text"])
+    first = [observe(e) for e in p.walk()]
+    loc = [observe(e) for e in p]
+    again = [observe(e) for e in p.walk()]
+    stale = None
+    if again != first:
+        stale = {"pass": "second walk() of the same Context", "first": first, "second": again}
+    elif loc != [x for x in first if x[0] in ("E", "J")]:
+        stale = {"pass": "iteration (parse()) after walk() on the same Context", "first": [x for x in first if x[0] in ("E", "J")],
+                 "second": loc}
+    return {"canon": json.dumps([first, loc, again]), "stale": stale}
+
+
 def op_rewalk(base, op):
     """list(p.walk()) once more on whatever Context the shared parser currently holds"""
     fmt = op["fmt"]
@@ -891,7 +910,7 @@ OPS = {"parse": op_parse, "hold": op_hold, "reobs": op_reobs, "compare": op_comp
        "mnew": op_mnew, "mwith": op_mwith, "mmatch": op_mmatch, "msub": op_msub, "cnew": op_cnew, "csetloc": op_csetloc,
        "caddrules": op_caddrules, "caddpaths": op_caddpaths, "cfilter": op_cfilter, "calllocales": op_calllocales,
        "dnew": op_dnew, "dknown": op_dknown, "dtext": op_dtext, "junkkey": op_junkkey,
-       "matcherq": op_matcherq, "cfgq": op_cfgq, "mozfn": op_mozfn, "read": op_read}
+       "matcherq": op_matcherq, "cfgq": op_cfgq, "mozfn": op_mozfn, "read": op_read, "walk2": op_walk2}
 
 
 def run_ops(base, ops):
